@@ -550,7 +550,7 @@ def gen_abstract(rng, n):
             if not young or (not old and z < 0.25):
                 if old or z < 0.5 or not young:
                     v = rng.choice([x for x in range(NVARS) if x not in old] or list(range(NVARS)))
-                    ops.append(("new", v, rng.choice(["map", "array", "idx"])))
+                    ops.append(("new", v, rng.choice(["map", "array", "array", "idx", "call"])))
                     young.add(v)
                     old.discard(v)
                 else:
@@ -571,21 +571,23 @@ def gen_abstract(rng, n):
                 young = set()
             continue
         if k < 0.20:
-            ops.append(("new", v, rng.choice(["map", "array", "idx"])))
+            ops.append(("new", v, rng.choice(["map", "array", "array", "idx", "call"])))
             young.add(v)
             old.discard(v)
         elif k < 0.45:
-            ops.append(("link", v, w))
+            ops.append(("link", v, w, rng.random() < 0.2))      # True: the store is done by a callee (containers as arguments)
         elif k < 0.50:
             ops.append(("linkpath", v, w, rng.randrange(4)))
         elif k < 0.57:
             ops.append(("unlink", v, rng.randrange(4)))
-        elif k < 0.62:
+        elif k < 0.60:
             ops.append(("relink", v, w, rng.randrange(4)))
+        elif k < 0.62:
+            ops.append(("restore", v, rng.randrange(4)))        # the element is stored again into its own slot
         elif k < 0.65:
             ops.append(("clear", v))
         elif k < 0.70:
-            ops.append(("copy", v, w))
+            ops.append(("copy", v, w, rng.random() < 0.3))      # True: the value travels through a call and its return
         elif k < 0.74:
             ops.append(("getchild", v, w, rng.randrange(4)))
         elif k < 0.87:
@@ -598,8 +600,43 @@ def gen_abstract(rng, n):
             young = set()
         else:
             ops.append(("thr", rng.choice([-1, 0, 1, 2, 5]), rng.choice([-3, 0, 1, 2, 3, 50])))
-    ops.append(("end", rng.choice(["normal", "normal", "exit", "error", "dropall"])))
+    # the way the program ends, and (for exit / error) the place where the end strikes: see END_CONTEXTS
+    ops.append(("end", rng.choice(["normal", "exit", "exit", "error", "error", "dropall"]), rng.randrange(len(END_CONTEXTS)),
+                rng.random() < 0.5))
     return ops
+
+
+# Functions available to every generated program.
+PRELUDE = """function lnk_(p_, c_, k_) { p_[k_] = c_; return p_; }
+function idf_(s_, m_) { return m_; }
+function mk_(n_) { @local m_; m_[1] = "value-" n_; return m_; }
+function mk2_(n_) { @local m_; m_["k"] = "value-" n_; m_["self"] = m_; return m_; }
+function f2_(a_, b_) { return 1; }
+function f3_(a_, b_, c_) { return 1; }
+function fail_(how_) { @local z_; z_ = 0; if (how_ == 1) exit 3; return 1 / z_; }
+function deep_(d_, m_, how_) { @local t_; t_[1] = m_; t_[2] = t_; if (d_ > 0) return deep_(d_ - 1, t_, how_); return f2_("x-" d_, fail_(how_)); }
+function holdfail_(m_, how_) { @local a_, b_; a_[1] = m_; b_ = hawk::array(); b_[0] = a_; b_[1] = b_; return f3_(a_, "t-" how_, fail_(how_)); }
+"""
+
+# Where an `exit` or a run-time error strikes.  {F} = the failing expression (1 / vzero, or a call of fail_() that
+# divides by zero or executes exit), {K} = a variable holding a container (contexts with {K} are skipped when there
+# is none).  Values evaluated before the failure (fresh strings, fresh maps, held containers, locals of the frames
+# being unwound, the for-in key stack) must all be released by the time the runtime is closed.
+END_CONTEXTS = [
+    None,                                              # the plain statement: `exit 3;` / `print 1 / vzero;`
+    'f3_("first-" vzero, "second-" vzero, {F});',      # later argument of a user function, fresh strings before it
+    'f2_({K}, {F});',                                  # a held container evaluated before the failing argument
+    'f2_(mk2_(1), {F});',                              # a fresh cyclic map returned by a call, then the failing argument
+    'vtmp_ = substr("some-text-" vzero, {F});',        # built-in function
+    '{K}[7] = f2_("s-" vzero, {F});',                  # right-hand side of an element assignment
+    'deep_(3, mk2_(2), {H});',                         # several frames with locals holding containers are unwound
+    'for (kk_ in {K}) {{ f2_("k-" kk_, {F}); }}',       # inside for-in
+    'print "a-" vzero, {F};',                          # print argument list
+    'vtmp_ = "pre-" vzero ("mid-" {F});',              # concatenation
+    '{K}[{F}] = {K};',                                 # index expression
+    'holdfail_({K}, {H});',                            # locals (map and array, cyclic) alive in the frame that fails
+    'vtmp_ = f3_(mk_(1), mk2_(2), {F}) f2_("z", 1);',  # two fresh containers before the failing argument
+]
 
 
 def render(aops):
@@ -607,8 +644,16 @@ def render(aops):
     plan: list of ('S', [id or None per variable]) / ('gc',) / ('thr',) in the order of the program's output lines"""
     var = [None] * NVARS                  # variable -> model id
     slots = {}                            # id -> list of (key, child id)
-    nextkey = {}
     isarr = {}
+
+    def newkey(p):
+        """smallest index/key not in use, from 0 (index 0 of an array included); 1 is the leaf element"""
+        used = {k for k, _ in slots[p]}
+        k = 0
+        while k == 1 or k in used:
+            k += 1
+        return k
+
     model = ["new"] + ["alloc m"] * PREALLOC_CLI
     nid = [PREALLOC_CLI]
     stmts = []
@@ -618,18 +663,25 @@ def render(aops):
     for _ in range(PREALLOC_CLI):
         T.alloc()
 
+    def refs_ideal(i):
+        return T.holders.get(i, 0) + sum(ks.count(i) for ks in T.kids.values())
+
     def status():
         args = ", ".join("hawk::gcrefs(v%d)" % i for i in range(NVARS))
-        stmts.append('print "S", %s, hawk::gc_get_pressure(0), hawk::gc_get_pressure(1), hawk::gc_get_pressure(2);' % args)
+        # the first container element of every variable's container is read back through the container
+        eids, eargs = [], []
+        for vi, i in enumerate(var):
+            if i is not None and slots.get(i):
+                eids.append(slots[i][0][1])
+                eargs.append("hawk::gcrefs(v%d[%d])" % (vi, slots[i][0][0]))
+            else:
+                eids.append(None)
+                eargs.append("0")
+        stmts.append('print "S", %s, %s, hawk::gc_get_pressure(0), hawk::gc_get_pressure(1), hawk::gc_get_pressure(2);' % (args, ", ".join(eargs)))
         # specification-level expectation: holders + elements of REACHABLE containers referring to the object
         # (T is pruned to the reachable part); exact right after a full collection, a lower bound otherwise
-        ideal = []
-        for i in var:
-            if i is None:
-                ideal.append(None)
-            else:
-                ideal.append(T.holders.get(i, 0) + sum(ks.count(i) for ks in T.kids.values()))
-        plan.append(("S", list(var), ideal, bool(fullgc[0]), len(model)))
+        ideal = [None if i is None else refs_ideal(i) for i in list(var) + eids]
+        plan.append(("S", list(var) + eids, ideal, bool(fullgc[0]), len(model)))
         fullgc[0] = False
 
     def alive(i):
@@ -639,12 +691,30 @@ def render(aops):
         model.append("drop %d" % i)
         T.holders[i] -= 1
 
+    def pick(start, pred):
+        """the variable asked for, or the next one (cyclically) whose container fits: keeps abstract ops applicable"""
+        for d in range(NVARS):
+            vi = (start + d) % NVARS
+            if var[vi] is not None and pred(var[vi]):
+                return vi
+        return start
+
     storage = "named"
     for a in aops:
         k = a[0]
         if k == "storage":
             storage = a[1]
             continue
+        if k in ("link", "copy") and len(a) > 2:
+            a = (k, pick(a[1], lambda i: True) if k == "link" else a[1], pick(a[2], lambda i: True)) + tuple(a[3:])
+        elif k in ("linkpath", "relink"):
+            a = (k, pick(a[1], lambda i: bool(slots[i])), pick(a[2], lambda i: True)) + tuple(a[3:])
+        elif k in ("unlink", "restore"):
+            a = (k, pick(a[1], lambda i: bool(slots[i]))) + tuple(a[2:])
+        elif k == "getchild":
+            a = (k, a[1], pick(a[2], lambda i: bool(slots[i]))) + tuple(a[3:])
+        elif k == "clear":
+            a = (k, pick(a[1], lambda i: True))
         if k == "new":
             v, how = a[1], a[2]
             old = var[v]
@@ -654,11 +724,12 @@ def render(aops):
             nid[0] += 1
             T.alloc()
             slots[i] = []
-            nextkey[i] = 2
             isarr[i] = (how == "array")
             model.append("alloc %s" % ("a" if how == "array" else "m"))
             if how == "idx":
                 stmts.append("v%d[1] = 1;" % v)
+            elif how == "call":
+                stmts.append("v%d = mk_(%d);" % (v, i))
             else:
                 stmts.append("v%d = hawk::%s(); v%d[1] = \"leaf\" %d;" % (v, how, v, i))
             if old is not None:
@@ -668,12 +739,14 @@ def render(aops):
             p, c = var[a[1]], var[a[2]]
             if p is None or c is None or len(slots[p]) > 30:
                 continue
-            key = nextkey[p]
-            nextkey[p] += 1
+            key = newkey(p)
             slots[p].append((key, c))
             T.kids[p].append(c)
             model.append("link %d %d" % (p, c))
-            stmts.append("v%d[%d] = v%d;" % (a[1], key, a[2]))
+            if len(a) > 3 and a[3]:
+                stmts.append("lnk_(v%d, v%d, %d);" % (a[1], a[2], key))
+            else:
+                stmts.append("v%d[%d] = v%d;" % (a[1], key, a[2]))
         elif k == "linkpath":
             p, c = var[a[1]], var[a[2]]
             if p is None or c is None or not slots[p]:
@@ -681,8 +754,7 @@ def render(aops):
             key1, q = slots[p][a[3] % len(slots[p])]
             if len(slots[q]) > 30:
                 continue
-            key = nextkey[q]
-            nextkey[q] += 1
+            key = newkey(q)
             slots[q].append((key, c))
             T.kids[q].append(c)
             model.append("link %d %d" % (q, c))
@@ -706,6 +778,13 @@ def render(aops):
             T.kids[p].append(d)
             model.append("relink %d %d %d" % (p, c, d))
             stmts.append("v%d[%d] = v%d;" % (a[1], key, a[2]))
+        elif k == "restore":
+            p = var[a[1]]
+            if p is None or not slots[p]:
+                continue
+            key, c = slots[p][a[2] % len(slots[p])]
+            model.append("relink %d %d %d" % (p, c, c))
+            stmts.append("v%d[%d] = v%d[%d];" % (a[1], key, a[1], key))
         elif k == "clear":
             p = var[a[1]]
             if p is None:
@@ -724,7 +803,10 @@ def render(aops):
             if old is not None:
                 drop(old)
             var[a[1]] = src
-            stmts.append("v%d = v%d;" % (a[1], a[2]))
+            if len(a) > 3 and a[3]:
+                stmts.append("v%d = idf_(\"pad-\" vzero, v%d);" % (a[1], a[2]))
+            else:
+                stmts.append("v%d = v%d;" % (a[1], a[2]))
         elif k == "getchild":
             p = var[a[2]]
             if p is None or not slots[p]:
@@ -768,12 +850,15 @@ def render(aops):
                 stmts.append('print "G", hawk::gc(2);')
                 fullgc[0] = True
                 plan.append(("R", len(model)))
-            elif a[1] == "exit":
-                stmts.append("exit 3;")
-                stmts.append('print "not reached";')
-                continue
-            elif a[1] == "error":
-                stmts.append("vzero = 0; print 1 / vzero;")
+            elif a[1] in ("exit", "error"):
+                tmpl = END_CONTEXTS[a[2] % len(END_CONTEXTS)] if len(a) > 2 else None
+                held = [vi for vi in range(NVARS) if var[vi] is not None]
+                how = 1 if a[1] == "exit" else 0
+                fexpr = "fail_(%d)" % how if (how == 1 or (len(a) > 3 and a[3])) else "1 / vzero"
+                if tmpl is not None and ("{K}" not in tmpl or held):
+                    stmts.append(tmpl.format(F=fexpr, H=str(how), K="v%d" % held[0] if held else ""))
+                # the plain form, in case the context above did not get to its failing expression
+                stmts.append("exit 3;" if how == 1 else "print 1 / vzero;")
                 stmts.append('print "not reached";')
                 continue
             else:
@@ -782,14 +867,14 @@ def render(aops):
         status()
     # variables that were dropped while others still refer to their objects are handled by the model;
     # `slots` of objects that died are never used again because no variable names them
-    names = ", ".join("v%d" % i for i in range(NVARS)) + ", vzero"
-    body = "\n".join("  " + s for s in stmts)
+    names = ", ".join("v%d" % i for i in range(NVARS)) + ", vzero, vtmp_"
+    body = "  vzero = 0;\n" + "\n".join("  " + s for s in stmts)
     if storage == "global":      # variables in the global slots of the runtime stack (released by refdown_globals)
-        prog = "@global " + names + ";\nBEGIN {\n" + body + "\n}\n"
+        prog = "@global " + names + ";\n" + PRELUDE + "BEGIN {\n" + body + "\n}\n"
     elif storage == "local":     # variables in a call frame (released when the frame is unwound, also by exit / an error)
-        prog = "function body_() {\n  @local " + names + ";\n" + body + "\n}\nBEGIN { body_(); }\n"
+        prog = PRELUDE + "function body_() {\n  @local " + names + ", kk_;\n" + body + "\n}\nBEGIN { body_(); }\n"
     else:                        # implicit variables: the named-variable table (released by hawk_htb_close in fini_rtx)
-        prog = "BEGIN {\n" + body + "\n}\n"
+        prog = PRELUDE + "BEGIN {\n" + body + "\n}\n"
     return prog, model, plan
 
 
@@ -838,6 +923,9 @@ def oracle_cli(plan, got, st, err, end):
     program ends the way it was written to end, hawk::gcrefs(v) - 1 never below holders + referring elements of
     reachable containers, and equal to it right after a full collection"""
     bad = []
+
+    def name(vi):
+        return "v%d" % vi if vi < NVARS else "first container element of v%d" % (vi - NVARS)
     if st in ("ASAN", "UBSAN", "LEAK", "HANG") or st.startswith("SIGNAL"):
         bad.append((len(got), "sanitizer/leak/crash status %s" % st))
     gi = 0
@@ -849,19 +937,19 @@ def oracle_cli(plan, got, st, err, end):
         if p[0] != "S":
             continue
         w = line.split()
-        if w[0] != "S" or len(w) != 1 + NVARS + 3:
+        if w[0] != "S" or len(w) != 1 + 2 * NVARS + 3:
             bad.append((gi - 1, "unexpected output line %r" % line))
             break
         for vi, (i, ideal) in enumerate(zip(p[1], p[2])):
             v = int(w[1 + vi])
             if i is None:
                 if v != 0:
-                    bad.append((gi - 1, "v%d is nil but gcrefs is %d" % (vi, v)))
+                    bad.append((gi - 1, "%s is nil but gcrefs is %d" % (name(vi), v)))
                 continue
             if v - 1 < ideal:
-                bad.append((gi - 1, "v%d: reference count %d is below its %d holder(s)+referring reachable element(s): early release ahead" % (vi, v - 1, ideal)))
+                bad.append((gi - 1, "%s: reference count %d is below its %d holder(s)+referring reachable element(s): early release ahead" % (name(vi), v - 1, ideal)))
             elif p[3] and v - 1 != ideal:
-                bad.append((gi - 1, "v%d: right after a full collection the reference count is %d but only %d holder(s)+referring reachable element(s) exist: leak" % (vi, v - 1, ideal)))
+                bad.append((gi - 1, "%s: right after a full collection the reference count is %d but only %d holder(s)+referring reachable element(s) exist: leak" % (name(vi), v - 1, ideal)))
         if bad:
             break
     return bad
@@ -937,6 +1025,9 @@ def cli_level(ctx, libdir, ncases, defer_corr_to_after):
     evals += len(cases)
     for aops in cases:
         ends[aops[-1][1]] = ends.get(aops[-1][1], 0) + 1
+        if aops[-1][1] in ("exit", "error") and len(aops[-1]) > 2:
+            ck = "%s@context%d" % (aops[-1][1], aops[-1][2] % len(END_CONTEXTS))
+            ends[ck] = ends.get(ck, 0) + 1
     first_orc = next((a for a, r in zip(cases, results) if r["orc"]), None)
     first_corr = next((a for a, r in zip(cases, results) if r["corr"] is not None), None)
     if first_orc is not None:
@@ -1060,7 +1151,7 @@ def run(ctx):
                     "return value and the full real state (v_refs, gc_refs incl. sentinels, generation list membership, container elements, "
                     "pressure/threshold, freed set, host blocks left after hawk_rtx_close) compared with the Lean model and checked directly "
                     "against the ledger/reachability property; plus generated and fixed hawk programs under ASan+LeakSanitizer comparing "
-                    "hawk::gcrefs of every variable and the pressure counters after every statement. distinct_nontrivial = distinct API "
+                    "hawk::gcrefs of every variable, of the first container element of every variable's container (read back through the container; elements go to the smallest free index from 0) and the pressure counters after every statement; stores/copies also through user-function calls; exit/error endings strike in 13 expression contexts (later call arguments after fresh strings/maps, built-ins, nested frames with locals, for-in, print, concatenation, index expressions). distinct_nontrivial = distinct API "
                     "histories in which a collection frees an object that has an element in an older generation than the collected one "
                     "which survives",
                     samples,
